@@ -14,7 +14,9 @@ CHECKS = {
             'Every enabled operation (all list/dict/object mutators incl. in-place operators, rebind forms, slices, '
             'notification modes, copy operations) at every node with every value class (fresh, existing node, node of '
             'another tree, detached node, MISSING) is executed up to the stated history depth; after every transition '
-            'the parent/path/lookup/root/alias/detached invariant is evaluated on all nodes of all roots.',
+            'the parent/path/lookup/root/alias/detached invariant is evaluated on all nodes of all roots; what an operation removed '
+            'is checked as a tree of its own; a value handed to an operation is either stored as that node or left unparented; '
+            'sorts that fail half-way.',
             BASE_NOTE),
     'C03': ('E1-statespace', 'model_checking',
             'explicit-state BFS over write histories on typed containers built for every spec of the grammar; schema invariant (independent acceptor + own-spec fixpoint) on every state',
@@ -22,13 +24,15 @@ CHECKS = {
             'driven through every write path with a boundary-complete value pool under the allow_partial scopes; after '
             'every step, successful or failed, the stored content is checked by an independent acceptor and by the '
             'container\'s own spec, rejected writes must raise Type/Value/KeyError and leave the target unchanged, and a '
-            'history must replay identically (no state leak through shared schemas).',
+            'history must replay identically (no state leak through shared schemas); nested containers written through ancestor '
+            'key paths; typed children handed from one tree to another (giver unchanged, receiver validates by its own rules).',
             BASE_NOTE),
     'C04': ('E2-enum', 'model_checking',
             'bounded-exhaustive enumeration of the value-spec grammar (depth 2), all ordered pairs, laws decided by the real apply() over a boundary-complete value pool',
             'L1 idempotent apply / spec unchanged and L2 default fixpoint for every spec x pool value; L3 (is_compatible => '
             'acceptance containment) and L4 (successful extend => extension accepts no more than the base on shared '
-            'fields, base compatible with it) for every ordered pair of the ~420 specs; containment is decided exactly '
+            'fields, base compatible with it, the extension accepts its own default) for every ordered pair of the ~430 specs '
+            '(grammar + 11 targeted specs); values are compared in the form the accepting spec stores; containment is decided exactly '
             'inside the grammar because the pool holds a representative of every cell of every atomic predicate.',
             BASE_NOTE),
     'C05': ('E1-statespace', 'model_checking',
@@ -37,29 +41,32 @@ CHECKS = {
             'symbolic containers, objects, classes, functions, every value spec of the C04 grammar, schemas, DNASpecs, DNAs '
             'with metadata, hyper primitives) through to_json, the string form, pickle, deepcopy and clone: equal, same type, '
             'hash and encoding fixpoint, well-formed tree; every history of save / overwrite / append / rewrite / load up to '
-            'depth 3 (4 thorough) over colliding paths on the in-memory and the standard file system, every path read back '
-            'after every step.',
+            'depth 3 (4 thorough) over colliding paths (incl. a bare file name, writers / appenders that add nothing) on the '
+            'in-memory and the standard file system, every path read back after every step; lambdas sharing one code object, '
+            'C functions of several modules.',
             BASE_NOTE),
     'C06': ('E2-enum', 'model_checking',
             'bounded-exhaustive enumeration of a value universe; every law evaluated on all ordered pairs and triples',
             'eq reflexive/symmetric/transitive, ne = not eq, eq => equal hash, operator agreement for opted-in classes, lt '
             'never raises, trichotomy, gt = swapped lt, lt transitive, sorting never raises: on every pair and triple of a '
-            'universe of 110 (quick) / ~340 (thorough, incl. systematically generated lists, tuples, dicts in every key '
-            'order, objects) values.',
+            'universe of 148 (quick) / ~376 (thorough, incl. systematically generated lists, tuples, dicts in every key '
+            'order, objects) values, among them free-form keys in different orders, values mutated after being hashed '
+            '(notifying and non-notifying writes), same-named classes and references.',
             BASE_NOTE),
     'C07': ('E1-statespace', 'model_checking',
             'enumeration of (value, clone method) pairs + explicit-state BFS over mutation histories on either copy with a non-interference invariant',
             'Fidelity (equality, type, per-node flags and value specs, topology, identity disjointness, leaf/Ref sharing '
             'rule, original untouched) for every value of the list under clone(deep/shallow), copy.copy, copy.deepcopy; '
             'independence: every mutation history up to the stated depth applied to either copy, the full snapshot of the '
-            'other copy compared after every transition.',
+            'other copy compared after every transition; leaf sharing is followed through tuples and plain containers; '
+            'per-instance accessor flags.',
             BASE_NOTE),
     'C08': ('E2-enum', 'model_checking',
             'exhaustive enumeration of tree x protected node x flag/scope configuration x complete mutator menu, reference permission function + unprotected twin run',
             'Every mutator of the menu at the protected node and every descendant (and deep rebinds from the root) under '
             'every combination of object flag and nested as_sealed / allow_writable_accessors scopes (True/False/None, '
             'two deep; three deep in thorough): denied => WritePermissionError and identical snapshot; allowed => no '
-            'WritePermissionError; seal()/seal(False) recurse.',
+            'WritePermissionError; seal()/seal(False) recurse; no operation changes the protection flags of a surviving node.',
             BASE_NOTE),
     'C09': ('E1-statespace', 'model_checking',
             'explicit-state BFS over mutation histories on trees of logging receivers; per-call notification oracle + freshness against a fresh deep copy',
@@ -76,7 +83,8 @@ CHECKS = {
             'length 3 over 17 hostile keys: print/parse round trip with key types, arithmetic and a total order on all '
             'pairs/triples; all nested values of the grammar: traversal, lookup by path and by printed path, query, rebind '
             'by function, flatten/canonicalize (lossless mode); KeyPathSet: every operation in every reachable state of '
-            'two sets over a 6-path universe against Python sets.',
+            'two sets over a 6-path universe against Python sets (plus a small universe around the key \'$\'); nested values '
+            'include integer and \'$\' dict keys.',
             BASE_NOTE),
     'C11': ('E2-enum', 'model_checking',
             'bounded-exhaustive enumeration of the DNASpec grammar; next_dna walked as a transition system against an independent generator of the valid set; all random_dna choice sequences',
@@ -84,7 +92,7 @@ CHECKS = {
             'sub-spaces two deep, 1-2 elements, <= 40 / 200 DNAs) the next_dna chain is compared with an independent '
             'reference of the constraint-satisfying DNAs (count, space_size, order, no successor); validate / DNA(spec=) / '
             'use_spec accept every member and reject every one-step corruption; random_dna is executed for every choice '
-            'sequence; Sweeping proposes the same sequence.',
+            'sequence; Sweeping proposes the same sequence and stays exhausted when asked again.',
             BASE_NOTE),
     'C12': ('E2-enum', 'model_checking',
             'bounded-exhaustive enumeration of specs x valid DNAs x view parameters, and of producer chains (incl. all random_dna choice sequences), each compared with a DNA rebuilt from raw numbers',
@@ -92,7 +100,8 @@ CHECKS = {
             'JSON) of every valid DNA of every grammar spec (with and without names and literal values) is inverted with '
             'the spec; lookups by decision point, id and name; every DNA produced by iteration, next_dna, random_dna, '
             'parse, from_numbers, from_dict, from_json, clone and chains of two of them is aligned node by node with its '
-            'specification.',
+            'specification; producers leave their input untouched; lookups (whole multi-choices too) are repeatable after the '
+            'name table was built; conditional chains three deep.',
             BASE_NOTE),
     'C13': ('E2-enum', 'model_checking',
             'bounded-exhaustive enumeration of templates (grammar x host container) x valid DNAs against an independent reference decode; evolvable chains over all choice sequences',
@@ -100,14 +109,17 @@ CHECKS = {
             'placeholder left, equals the reference decode, encode inverts decode, repeatable, materialize agrees, template '
             'snapshot unchanged even after writes to the decoded value, pg.iter yields space_size distinct values; typed '
             'fields, where-filters, user-defined (custom) placeholders in 6 template shapes, and all two-step mutation chains of '
-            'an evolvable placeholder (the parent is decoded again after each derivation).',
+            'an evolvable placeholder (the parent is decoded again after each derivation); key-reordered inputs to encode; manyof '
+            'against list size bounds.',
             BASE_NOTE),
     'C14': ('E3-choice', 'model_checking',
             'stateless DFS over choice sequences of the random source for every operator x specification x parents; enumeration of operator expressions',
             'Every shipped mutator / recombinator parameterisation x 9 specifications x parents x every choice sequence '
             '(cap reported): children validate, satisfy an independent constraint checker and are aligned node by node; '
             'inputs and input list untouched; selectors return members in the documented number; seeded operators are '
-            'independent of the global random state (including last-resort merge paths); composed expressions inherit the checks.',
+            'independent of the global random state (6 states x 3 applications, including last-resort merge paths); composed '
+            'expressions inherit the checks; each input stays the root of its own tree; spaces rooted at one choice; identical '
+            'parents at float bounds; an operator raising on valid parents is a violation.',
             BASE_NOTE),
     'C15': ('E5-crash', 'fault_enumeration',
             'crash-point enumeration: every prefix k of a run x feedback lag / order x persistence moment, recover on a fresh instance, lock-step continuation',
@@ -115,7 +127,8 @@ CHECKS = {
             'hill climb, NSGA2, NEAT, Deduping over evolution) every crash point 0..N with the last 0..2 feedbacks missing '
             '(and out-of-order feedback), history persisted through JSON both as stored at proposal time and as left at the '
             'crash: counts, population with fitness and generations are compared with the uninterrupted run, and both runs '
-            'are continued (exact proposals for history-determined algorithms).',
+            'are continued (exact proposals for history-determined algorithms); for those the history also goes through a file '
+            'into a fresh interpreter (a real restart) and the continuation is compared.',
             BASE_NOTE),
     'C19': ('E2-enum', 'model_checking',
             'bounded-exhaustive enumeration of generated programs (construct x host position, nested two deep) x permission subsets, differential against plain exec',
@@ -123,15 +136,17 @@ CHECKS = {
             'programs) under the covering permission subsets (quick) or all 256 subsets (thorough), passed as argument and '
             'as scope: a missing permission must produce a validation CodeError with an untouched sentinel; a granted '
             'program must yield the intermediates and stdout of plain exec; 343 nestings of three permission scopes never '
-            'widen the outer one; runtime errors are wrapped with cause and line.',
+            'widen the outer one and an explicit argument is intersected with the scope; every assignment form as last statement; '
+            'runtime errors are wrapped with cause and line.',
             BASE_NOTE),
     'C20': ('E2-enum', 'model_checking',
             'bounded-exhaustive enumeration of value shape x hostile string x tree-view option combination; strict tokenizer + differential skeleton against a benign twin',
             'Every (shape, hostile string, option combination) is rendered twice: the value and its twin whose '
             'metacharacters are letters. The strict tokenizer must find a properly nested document, the element/attribute '
             'skeletons must be identical (no datum can introduce an element or attribute), no datum may sit in '
-            'script/style/comment, every key and leaf must be present, the value must be untouched; thorough covers the full '
-            'product of 10 options (6912 combinations).',
+            'script/style/comment, every key and leaf must be present, the value must be untouched; shapes include hostile class '
+            'names and pg.Diff values, options include callable key filters; thorough covers every 5th combination of the full '
+            'product of 10 options (13824).',
             BASE_NOTE),
     'C16': ('E4-sched', 'model_checking',
             'stateless schedule exploration of real worker threads under a controlled scheduler with iterative preemption bounding',
@@ -146,13 +161,15 @@ CHECKS = {
             BASE_NOTE),
     'C17': ('E4-sched', 'model_checking',
             'bounded-exhaustive enumeration of well-nested enter/exit programs against stack models + schedule exploration of two threads (event granularity and statement granularity, preemption bounded)',
-            'All tree shapes with up to 3 scopes over each of 17 scoped managers (incl. timing scopes observed through a probe and view options with dict-valued entries) (every argument value, every block left '
+            'All tree shapes with up to 3 scopes over each of 18 scoped managers (incl. timing scopes observed through a probe, view options with dict-valued entries, ContextualObject.override with a rebind inside the block, detour of a class with its subclass) (every argument value, every block left '
             'normally, by Exception or by BaseException) and over every pair of managers: the observation of every manager '
             'equals its documented nesting rule at every point and the full observation vector is restored after every exit; '
             'process-wide managers: restoration only. Two threads running such programs under the controlled scheduler: all '
             'schedules with <= 2 preemptions at event granularity and <= 1 preemption at statement granularity inside the '
             'thread-local / flags / contextual / detour / permission / timing / dynamic-evaluation modules; each thread must observe '
-            'what it observes alone.',
+            'what it observes alone; two threads applying different decisions to one traced dynamic-evaluation context (also '
+            're-entered) under every schedule with <= 1 preemption; a per-thread dynamic-evaluation scope followed by '
+            'process-wide ones.',
             BASE_NOTE),
     'C18': ('E2-enum', 'model_checking',
             'bounded-exhaustive enumeration of signatures x call patterns, differential against the interpreter',
@@ -160,13 +177,17 @@ CHECKS = {
             '**kwargs, annotated or not) as functor, symbolized function, symbolized class and wrapped class x every split '
             'of positionals and keyword subsets (incl. an unknown name) between construction and call x override flag: the '
             'final outcome equals the interpreter calling the original callable with the effective arguments; generated '
-            '__init__ signature, sym_init_args, clone / JSON round trips, nested subclassed functors.',
+            '__init__ signature, sym_init_args, clone / JSON round trips, nested and self-recursive subclassed functors; all binding '
+            'histories (set / unset / del / nested and batched rebinds) up to depth 2 (3 thorough) on 5 partial applications with '
+            'four call forms after every step, repeated with type checking off.',
             BASE_NOTE),
     'C02': ('E1-statespace', 'model_checking',
             'explicit-state BFS to closure over the real pg.List/pg.Dict with a lock-step plain list/dict reference model',
             'Every (reachable content, operation) pair over the list/dict API menu with all indices/slices/steps within '
             'the length bound is executed on real objects (fresh, history replayed) and compared with a plain '
-            'list/dict: outcome class, return value, and every read path.',
+            'list/dict: outcome class, return value (setdefault hands back the stored object), and every read path; every '
+            'two-path batch rebind on lists of 11-12 elements; every ordered three-path batch over a container, the paths below '
+            'it and its replacement.',
             BASE_NOTE),
 }
 
